@@ -83,7 +83,8 @@ def rules(P, R, prefix="C07"):
                         "reply payload `%s` is not ConsensusMessage::Propose of the value read under the requested digest" % data[:200])
 
         # ---------------- Y2 request + park + resume
-        gp = prog.fn(SYNC + "::get_parent_block")
+        from ..common import sync_fns
+        gp, _ga07 = sync_fns(prog, env)
         inner = None
         for cid, c in W.channels.items():
             if c.fn.path == SYNC + "::new" and c.kind == "mpsc" and "messages::Block" in (c.elem_ty or ""):
@@ -224,7 +225,7 @@ def rules(P, R, prefix="C07"):
                 ctx = env.ctx(f)
                 bt = ctx.term(call_args(n)[1])
                 pc = env.flow(f).pathcond(n)
-                req = Atom("some(self.synchronizer.get_ancestors(%s))" % bt)
+                req = Atom("some(self.synchronizer.%s(%s))" % (_ga07.name if _ga07 is not None else "get_ancestors", bt))
                 ok, _ = implies(pc, req)
                 R.judge(ok, prefix + ".Y4", key(f, "store_block only after get_ancestors(block) returned Some" + tag, i), n["sp"], show(req),
                         "a block is stored (becomes servable / usable as parent) before its ancestors were found (path condition %s)" % show(pc))
